@@ -1047,6 +1047,7 @@ class StructOf(DataType):
 
     def validate(self, value, previous=None):
         self.check_type(value, True)
+        key = None  # for the error message, in case previous is not a dict
         try:
             result = dict(previous or {})
             for key, val in value.items():
